@@ -335,15 +335,16 @@ type World struct {
 	layerNo map[string]int
 
 	// per Index call
-	active  bool
-	pos     int
-	script  Script
-	crashed bool
-	failed  bool
-	cancel  context.CancelFunc
-	trace   []byte
-	Scans   []ScanEvent // since reset
-	Fetches []int       // layer numbers realized, since reset
+	active    bool
+	pos       int
+	script    Script
+	crashed   bool
+	failed    bool
+	cancelled bool
+	cancel    context.CancelFunc
+	trace     []byte
+	Scans     []ScanEvent // since reset
+	Fetches   []int       // layer numbers realized, since reset
 	// NetDown: scanners flagged N cannot reach the network (their Scan returns a *net.AddrError)
 	NetDown bool
 	// ConfigEvents are the Configure calls of the last libindex.New, in call order
@@ -443,6 +444,7 @@ func (w *World) enterAs(ctx context.Context, letter byte, who string) (error, bo
 	case FDeadline:
 		return fail(deadlineError(p))
 	case FCancelCtx:
+		w.cancelled = true
 		w.cancel()
 		return fail(context.Canceled)
 	case FCrash:
@@ -451,6 +453,7 @@ func (w *World) enterAs(ctx context.Context, letter byte, who string) (error, bo
 	case FCancelAfter:
 		w.trace = append(w.trace, letter)
 		okF()
+		w.cancelled = true
 		w.cancel()
 		return nil, true
 	case FCommitErr:
@@ -1111,10 +1114,12 @@ type Result struct {
 	Trace    string
 	Crashed  bool
 	Failed   bool // some numbered call failed
-	Hang     bool
-	Panic    bool
-	NScans   int // stub Scan entries during this call
-	NFetch   int // layers realized during this call
+	// Cancelled: the caller's context was cancelled before or during the call
+	Cancelled bool
+	Hang      bool
+	Panic     bool
+	NScans    int // stub Scan entries during this call
+	NFetch    int // layers realized during this call
 	// SchedFirst: under a scheduler, the kind of the first fault it granted (0: none)
 	SchedFirst byte
 	Note       string // why the call is reported as hung, if known
@@ -1204,6 +1209,7 @@ func (w *World) Index(layers []int, script Script, dead bool) Result {
 	}
 	w.mu.Lock()
 	w.active, w.pos, w.script, w.crashed, w.failed, w.cancel, w.trace = true, 0, script, false, false, cancel, nil
+	w.cancelled = dead
 	necos := 0
 	for _, s := range w.Cfg {
 		necos = max(necos, s.Eco+1)
@@ -1271,6 +1277,7 @@ func (w *World) Index(layers []int, script Script, dead bool) Result {
 		res.Stored = "-"
 	}
 	res.Calls, res.Trace, res.Crashed, res.Failed = w.pos, string(w.trace), w.crashed, w.failed
+	res.Cancelled = w.cancelled
 	if res.Trace == "" {
 		res.Trace = "-"
 	}
